@@ -82,7 +82,7 @@ class CoopDeadlock(CoopSignal):
         CoopSignal.__init__(self, site)
         self.site = site
         self.held = held            # lock of the app thread the link needs
-        self.wanted = wanted        # lock the app thread is acquiring (or None)
+        self.wanted = wanted        # lock the app thread is acquiring / None
         self.link_holds = link_holds
 
 
